@@ -151,7 +151,10 @@ func (c *cubicSender) OnPacketSent(
 	if !isRetransmittable {
 		return
 	}
-	c.largestSentPacketNumber = packetNumber
+	// Packets of all packet number spaces are reported here, so packet numbers don't
+	// necessarily increase. Track the largest one: a loss then only starts a new recovery
+	// period (see OnCongestionEvent) if the lost packet was sent after the last cutback.
+	c.largestSentPacketNumber = max(c.largestSentPacketNumber, packetNumber)
 	c.hybridSlowStart.OnPacketSent(packetNumber)
 }
 
